@@ -76,7 +76,7 @@ func init() {
 		// the histories run twice: on the instrumented build (map ranges in sorted order: every expression), and on the pristine one, where
 		// Go's own randomised map iteration stays in play, for the expressions that do not enumerate object members (a result that
 		// follows the iteration order, like a home-made to_string, differs from the fresh search there)
-		Phases:      []core.Phase{{Name: "histories", Build: "instr", Fn: c06Run}, {Name: "histories-runtime-order", Build: "pristine", Fn: c06Run}, {Name: "other-expressions-first", Build: "pristine", Fn: c06RunPairs}},
+		Phases:      []core.Phase{{Name: "histories", Build: "instr", Fn: c06Run}, {Name: "histories-runtime-order", Build: "pristine", Fn: c06Run}, {Name: "other-expressions-first", Build: "pristine", Fn: c06RunPairs}, {Name: "routes", Build: "instr", Fn: c06RunRoutes}},
 		Judge:       c06Judge,
 		Assumptions: []string{"a result may alias the caller's data (a[1:] is a sub-slice of the input); the property forbids writes, not aliasing", "MustCompile <=> Compile is checked by C03 over its whole string space"},
 	})
@@ -389,6 +389,9 @@ func c06RunPairs(r *core.Run) {
 }
 
 func c06Judge(r *core.Run, phase string, pt map[string]any) *core.Violation {
+	if pbool(pt, "routes") {
+		return c06RouteText(r, pstr(pt, "expr"), pstr(pt, "shape"), composeDocs())
+	}
 	if pbool(pt, "pair") {
 		return c06PairPoint(r, pstr(pt, "first"), pstr(pt, "second"))
 	}
